@@ -99,6 +99,7 @@ from contracts.attributes import AT, AttrVal, ATTR_SORT, same
 
 W = z3.Function("string_width_inches", StrSort, z3.IntSort(), z3.RealSort(), z3.RealSort())       # get_string_width(text, font, size)
 HROWS = z3.Function("header_rows", StrSort, z3.IntSort())
+HR = z3.Function("heading_rows_of_text", StrSort, z3.IntSort())      # _calculate_header_rows(text, table width, font size) within one carrier call
 META_COLS = dict(row_index=z3.IntSort(), data_rows=z3.IntSort(), pageby_header_rows=z3.IntSort(), continuation_header_rows=z3.IntSort(),
                  subline_header_rows=z3.IntSort(),
                  column_header_rows=z3.IntSort(), total_rows=z3.IntSort(), page=z3.IntSort(), is_group_start=z3.BoolSort(), is_subline_start=z3.BoolSort())
@@ -211,6 +212,19 @@ class RowMetadata(Contract):
             total = total + If(upto, nd[l], 0)
         return total
 
+    def weighted_heading_rows(self, c, cols, k, page_top):
+        """the rows (HR = _calculate_header_rows of the level's text) of the headings shown before row k: at a page top every non-divider level;
+        at a group start inside a page the non-divider levels from the first changed level downwards (row 0: every level)"""
+        d = c.v["d"]
+        w = [If(key_str(d, k, col) != lit("-----"), HR(key_str(d, k, col)), 0) for col in cols]
+        if page_top:
+            return z3.Sum(*w) if len(w) > 1 else w[0]
+        changed = [Or(k == 0, key_str(d, k - 1, col) != key_str(d, k, col)) for col in cols]
+        total = IntVal(0)
+        for l in range(len(cols)):
+            total = total + If(Or(*changed[:l + 1]), w[l], 0)
+        return total
+
     def chg(self, c, cols, k):
         d = c.v["d"]
         if not cols:
@@ -242,10 +256,10 @@ class RowMetadata(Contract):
     @property
     def summaries(self):
         def header_rows(I, st, args, kwargs, node):
-            t = norm_str(args[1])
-            h = z3.Int(fresh_name("header_rows"))
-            st.assume(h >= 1)
-            return h
+            # unit HeaderRows: a function of the heading text (table width and font size are fixed within one call of the carrier), at least 1
+            t = to_z3(norm_str(args[1]))
+            st.assume(HR(t) >= 1)
+            return HR(t)
 
         def iloc(I, st, args, kwargs, node):
             bv = st.obj(args[0])
@@ -326,6 +340,12 @@ class RowMetadata(Contract):
                     lambda k: Select(cols["continuation_header_rows"], k) >= z3.Sum(*[If(key_str(d, k, col) != lit("-----"), 1, 0) for col in pb]) \
                     if len(pb) > 1 else Select(cols["continuation_header_rows"], k) >= If(key_str(d, k, pb[0]) != lit("-----"), 1, 0)
                 parts["page_top_headings_cover_group_start_headings"] = lambda k: Select(cols["continuation_header_rows"], k) >= Select(cols["pageby_header_rows"], k)
+                # C04 / C05 (no needless break, a divider costs nothing): the budgets are EXACTLY the heading rows of the levels shown - every
+                # non-divider level at a page top; at a group start the non-divider levels from the first changed level downwards; nothing else
+                parts["C04.page_top_heading_budget_is_exactly_the_non_divider_levels"] = \
+                    lambda k: Select(cols["continuation_header_rows"], k) == self.weighted_heading_rows(c, pb, k, page_top=True)
+                parts["C04.group_start_heading_budget_is_exactly_the_changed_levels_downwards"] = \
+                    lambda k: Select(cols["pageby_header_rows"], k) == self.weighted_heading_rows(c, pb, k, page_top=False)
             else:
                 parts["no_page_by_no_page_top_headings"] = lambda k: And(Select(cols["continuation_header_rows"], k) == 0, Select(cols["pageby_header_rows"], k) == 0)
             for nm, f in parts.items():
